@@ -1,9 +1,11 @@
 (* C11 -- Writes are all-or-nothing, and success is only reported when durable.
    Two layers: (1) the generic storage-trace model (C11/Atomicity.v), whose classification hypotheses are
    checked on the real traces by the fault-enumeration harness; (2) for document writes, the write-loop model
-   of C05 (all interleavings, CAS retries, reserved sequences). *)
+   of C05 (all interleavings, CAS retries, reserved sequences).
+   Requests with several commits (bulk writes; import before write) are sequences of sub-requests
+   (exec_multi): theorems C11_per_commit_all_or_nothing .. C11_bulk_documents_independent. *)
 From Coq Require Import Permutation.
-From SG Require Import Base.Prelude C11.Atomicity C11.AtomicityProofs.
+From SG Require Import Base.Prelude C11.Atomicity C11.AtomicityProofs C11.MultiProofs.
 From SG Require Import C05.WriteLoop C05.WriteLoopProofs C05.WriteLoopTheorems.
 Open Scope N_scope.
 
@@ -62,6 +64,87 @@ Theorem C11_failed_writes_return_sequences : forall ac tab ops sched,
             (In x (committed_seqs (run true false ac tab ops sched)) \/ In x (released (run true false ac tab ops sched))).
 Proof. exact accounted_when_finished. Qed.
 Print Assumptions C11_failed_writes_return_sequences.
+
+(* ---- requests with several commits: a trace with k commits is a sequence of k sub-requests ---- *)
+
+(* each sub-request is all-or-nothing: it reports success exactly when its own commit was performed -- bulk
+   writes and aborting requests alike, any number of sub-requests, any set of faults *)
+Theorem C11_per_commit_all_or_nothing : forall cont trs k,
+  Forall no_posterr trs ->
+  Forall (fun m => snd m = ROk <-> committed (fst m) = true) (run_multi cont trs k).
+Proof. intros cont trs k H. exact (per_commit_all_or_nothing cont trs 0 k false H). Qed.
+Print Assumptions C11_per_commit_all_or_nothing.
+
+(* a request whose sub-requests abort each other (import, then write): if the faults spare the sub-requests
+   [pre] (each fault in their range lies after their commit) and sub-request [tr] fails (no commit: rejected; or a
+   fault at or before its commit on an operation that is not best-effort), then the commits of [pre] are durable
+   and reported as such, and [tr] and everything after it report the failure and have changed nothing *)
+Theorem C11_fault_after_commit_i_keeps_1_to_i : forall pre tr post k,
+  segs_survive pre 0 k -> seg_fails tr (length (concat pre)) k ->
+  exists outs_pre outs_rest,
+    run_multi false (pre ++ tr :: post) k = outs_pre ++ outs_rest /\
+    length outs_pre = length pre /\
+    Forall (fun m => snd m = ROk /\ committed (fst m) = true) outs_pre /\
+    length outs_rest = S (length post) /\
+    Forall (fun m => snd m = RErr /\ committed (fst m) = false) outs_rest.
+Proof. intros pre tr post k Hs Hf. exact (abort_prefix_durable pre tr post 0 k Hs Hf). Qed.
+Print Assumptions C11_fault_after_commit_i_keeps_1_to_i.
+
+(* ... and its single result is success exactly when every commit is durable *)
+Theorem C11_multi_overall_success_iff_all_durable : forall trs k,
+  Forall no_posterr trs ->
+  (overall (run_multi false trs k) = ROk <-> Forall (fun m => committed (fst m) = true) (run_multi false trs k)).
+Proof. intros trs k H. apply overall_ok_iff. exact (per_commit_all_or_nothing false trs 0 k false H). Qed.
+Print Assumptions C11_multi_overall_success_iff_all_durable.
+
+(* bulk write: the outcome of document j is the outcome of its own request executed alone at its position, it
+   depends only on the faults that hit its own operations, and it is all-or-nothing per document *)
+Theorem C11_bulk_documents_independent : forall trs k j tr,
+  nth_error trs j = Some tr ->
+  nth_error (run_multi true trs k) j = Some (exec tr (offset trs j) k sys0) /\
+  (forall k', (forall p, (offset trs j <= p < offset trs j + length tr)%nat -> existsb (Nat.eqb p) k = existsb (Nat.eqb p) k') ->
+              nth_error (run_multi true trs k') j = nth_error (run_multi true trs k) j) /\
+  (seg_survives tr (offset trs j) k ->
+     snd (exec tr (offset trs j) k sys0) = ROk /\ committed (fst (exec tr (offset trs j) k sys0)) = true) /\
+  (seg_fails tr (offset trs j) k ->
+     snd (exec tr (offset trs j) k sys0) = RErr /\ committed (fst (exec tr (offset trs j) k sys0)) = false).
+Proof.
+  intros trs k j tr Hj. repeat split.
+  - exact (cont_nth trs 0 k j tr Hj).
+  - intros k' Hk. symmetry. exact (cont_independent trs 0 k k' j tr Hj Hk).
+  - apply seg_survives_ok; assumption.
+  - apply seg_survives_ok; assumption.
+  - apply seg_fails_err; assumption.
+  - apply seg_fails_err; assumption.
+Qed.
+Print Assumptions C11_bulk_documents_independent.
+
+(* a sub-request sees only the faults inside its own range of positions *)
+Theorem C11_faults_are_local : forall tr i k k' s,
+  (forall p, (i <= p < i + length tr)%nat -> existsb (Nat.eqb p) k = existsb (Nat.eqb p) k') ->
+  exec tr i k s = exec tr i k' s.
+Proof. exact exec_faults_local. Qed.
+Print Assumptions C11_faults_are_local.
+
+(* ---- follow-ups that are part of the visible effect (principal invalidation) ---- *)
+(* success means the WHOLE effect is visible, provided no fault hits a required follow-up; with such a fault the
+   statement is false for the unchanged code (C11_Refuted.v) *)
+Theorem C11_success_whole_effect_visible : forall tr k, no_posterr tr ->
+  (forall f, In f k -> nth_error tr f <> Some Inval) ->
+  snd (run_request tr k) = ROk -> effect_visible (fst (run_request tr k)) = true.
+Proof. exact success_effect_visible. Qed.
+Print Assumptions C11_success_whole_effect_visible.
+
+Example C11_multi_nonvacuous :
+  segs_survive [[Aux; Read; Aux; Commit]] 0 [6%nat] /\ seg_fails [Opt; Opt; Aux; Commit] 4 [6%nat] /\
+  run_multi false [[Aux; Read; Aux; Commit]; [Opt; Opt; Aux; Commit]] [6%nat] =
+    [(set_committed (add_aux 2 (add_aux 0 sys0)), ROk); (sys0, RErr)].
+Proof.
+  split; [|split].
+  - cbn. split; [|exact I]. split; [repeat constructor; discriminate|]. exists 3%nat. split; [reflexivity|]. intros f [<-|[]]. lia.
+  - right. exists 7%nat. split; [reflexivity|]. exists 6%nat. cbn. repeat split; auto; try lia. discriminate.
+  - vm_compute. reflexivity.
+Qed.
 
 Example C11_nonvacuous :
   no_posterr [Read; Aux; Aux; Commit; Aux] /\
